@@ -42,3 +42,20 @@ Theorem C11_filenames_only_documented_errors fn :
   (parse_wheel fn = FErr \/ exists r, parse_wheel fn = FOk r) /\ (parse_sdist fn = FErr \/ exists r, parse_sdist fn = FOk r).
 Proof. split; [apply parse_wheel_total|apply parse_sdist_total]. Qed.
 Print Assumptions C11_filenames_only_documented_errors.
+
+(* ---------------- the other entry points (theorems proved with their models; restated here) ---------------- *)
+Require C07 C17 C19.
+(* canonicalize_license_expression: a value or InvalidLicenseExpression; the KeyError / eval failure points are unreachable *)
+Theorem C11_license_only_documented_exception s : LicTop.canonicalize_license_expression s <> LicModel.Crash.
+Proof. exact (C19.C19_only_the_documented_exception s). Qed.
+Print Assumptions C11_license_only_documented_exception.
+(* Marker.evaluate: every variable the grammar accepts is defined in the effective environment: no KeyError *)
+Theorem C11_marker_evaluate_no_keyerror s m defaults ov env : MkModel.Marker s = MkModel.MOk m -> MkTreeP.detects_all defaults -> MkTreeP.typed ov ->
+  MkEval.effective_env defaults ov = Some env -> forall x, In x (MkModel.sides_l m) -> MkEval.side_value env x <> None.
+Proof. exact (C07.C07_no_keyerror s m defaults ov env). Qed.
+Print Assumptions C11_marker_evaluate_no_keyerror.
+(* Metadata.from_raw on typed data: success or one group of InvalidMetadata - nothing else *)
+Theorem C11_metadata_from_raw_group_or_success O data ord : MetaFacts.well_typed data ->
+  (exists s, MetaModel.from_raw_ord ord O true data = MetaModel.FOk s) \/ (exists es, es <> [] /\ MetaModel.from_raw_ord ord O true data = MetaModel.FGroup es).
+Proof. exact (C17.C17_accept_or_group O data ord). Qed.
+Print Assumptions C11_metadata_from_raw_group_or_success.
